@@ -1086,7 +1086,7 @@ macro_rules! fh_st {
     ($name:expr, $h:expr) => {{
         let h = &$h;
         let ok = dbg_ok(h) && guarded(|| h.full_eq(h)).unwrap_or(false);
-        format!("{}={}/{}{}", $name, h, b2s(h.is_valid()), if ok { "" } else { "/DBGPANIC" })
+        format!("{}={}|{}{}", $name, h, b2s(h.is_valid()), if ok { "" } else { "|DBGPANIC" })
     }};
 }
 macro_rules! dh_st {
@@ -1094,16 +1094,16 @@ macro_rules! dh_st {
         let d = &$d;
         let (r1, r2) = dual_rle(d);
         let raw = match guarded(|| format!("{}", d.to_raw_form())) { Some(s) => s, None => PANIC.to_string() };
-        format!("{}={}/{}/{}/{}/{}{}", $name, d.as_normalized(), raw, b2s(d.is_valid()), hexenc(&r1), hexenc(&r2),
-            if dbg_ok(d) { "" } else { "/DBGPANIC" })
+        format!("{}={}|{}|{}|{}|{}{}", $name, d.as_normalized(), raw, b2s(d.is_valid()), hexenc(&r1), hexenc(&r2),
+            if dbg_ok(d) { "" } else { "|DBGPANIC" })
     }};
 }
 fn t_st(t: &FuzzyHashCompareTarget) -> String {
-    format!("T={}/{}/{}/{}{}", t.log_block_size(), t.block_hash_1().len(), t.block_hash_2().len(), b2s(t.is_valid()),
-        if dbg_ok(t) && t.full_eq(t) { "" } else { "/DBGPANIC" })
+    format!("T={}|{}|{}|{}{}", t.log_block_size(), t.block_hash_1().len(), t.block_hash_2().len(), b2s(t.is_valid()),
+        if dbg_ok(t) && t.full_eq(t) { "" } else { "|DBGPANIC" })
 }
 fn p_st(p: &BlockHashPositionArray) -> String {
-    format!("P={}/{}/{}", p.len(), b2s(p.is_valid()), b2s(p.is_valid_and_normalized()))
+    format!("P={}|{}|{}", p.len(), b2s(p.is_valid()), b2s(p.is_valid_and_normalized()))
 }
 
 fn store_op(st: &mut Store, tok: &str) -> String {
